@@ -171,6 +171,20 @@ theorem tr_recLd {cfg : Config} {s s' : State} {t : Tid} {site : RSite} {r : Rid
           funext x; simp only [updT]; split <;> simp_all
         rw [e] at this
         exact this
+    · -- dbgW
+      rename_i hl
+      have := settle_id_of_loc hS (by simp [hl]) (by simp [hl]); subst this
+      simp only [need_ok] at h
+      obtain ⟨hq, hm, ho, h⟩ := h
+      cases h
+      exact .loc (.dbgW _ _ hl hq hm ho)
+    · -- dbgRc
+      rename_i hl
+      have := settle_id_of_loc hS (by simp [hl]) (by simp [hl]); subst this
+      simp only [need_ok] at h
+      obtain ⟨hq, ho, h⟩ := h
+      cases h
+      exact .loc (.dbgRc _ _ hl hq ho)
     · cases h
 
 end NsyncVerif.CvFix
